@@ -36,7 +36,10 @@ def r1_dispatch(ctx, rule="C01.R1"):
     ops = prog.variants(ot.OP)
     for op in ops:
         got = gtab.get(op)
-        ctx.decide(got == [op], rule, "%s:operator->instruction:%s" % (rule, op), gfn.loc,
+        # a trailing Cast to the expression's own static type (C06.R1) does not change which
+        # arithmetic runs
+        core_instrs = [x for x in (got or []) if x != "Cast"]
+        ctx.decide(core_instrs == [op], rule, "%s:operator->instruction:%s" % (rule, op), gfn.loc,
                    "Operator::%s emits Instruction::%s" % (op, op),
                    "binary Operator::%s is lowered to %s" % (op, got))
     ufn, utab = T.generator_unary_table()
